@@ -20,6 +20,8 @@ pub struct RunOpts {
   pub class: &'static str,
   /// The program is in the well-formed class: Ref equality is demanded and no abort may ever happen.
   pub wellformed: bool,
+  /// The program carries value-conditional injected operations (hidden read/write, overlap, cycle; role flips).
+  pub injected: bool,
   /// Histories are "pure" (every change batch is reported to a bottom-up build before any partial top-down).
   pub pure_history: bool,
   pub idempotence_probe: bool,
@@ -73,17 +75,19 @@ impl<'a> CaseRunner<'a> {
     let prog = Rc::new(case.prog.clone());
     log::clear();
     crate::cell::faults_reset();
+    if opts.injected { crate::cell::FAULTS.with(|f| f.borrow_mut().step_bound = Some(60 * prog.n_tasks() as u64 + 400)); }
     let drv = Driver::new(prog.clone(), &case.init, log_trk());
     CaseRunner { case, opts, rep, drv, prog, step_no: 0, seen_tm: BTreeSet::new(), any_abort: false, tainted: BTreeSet::new(), tainted_res: BTreeSet::new(), ext_dirty: BTreeSet::new(), known_as_alarm: false, rng: Rng::derive(opts.seed ^ 0x5151, opts.case_no) }
   }
 
   fn raise(&mut self, fd: &Finding, rec: &SessionRec, what: &str) {
-    if fd.sig.starts_with("K2-") && !self.known_as_alarm {
+    if (fd.sig.starts_with("K2-") || fd.sig.starts_with("K4-")) && !self.known_as_alarm {
       if fd.prop == self.opts.which { self.rep.known_hit(&fd.sig); }
       return;
     }
     if fd.prop != self.opts.which {
       self.rep.count(&format!("findings_attributed_to_{}", fd.prop));
+      if std::env::var_os("PV_SHOW_OTHER").is_some() { eprintln!("OTHER {} {} [{} case {} step {} {}] {}", fd.prop, fd.sig, self.opts.class, self.opts.case_no, self.step_no, what, fd.msg); }
       return;
     }
     let window = log::render_window(&rec.events, fd.at, 14);
@@ -135,10 +139,69 @@ impl<'a> CaseRunner<'a> {
       self.rep.count("aborts");
       let kind = abort_kind(msg);
       self.rep.seen("abort_kinds", kind);
-      if self.opts.wellformed {
-        fs.push(Finding { prop: "C20", sig: format!("abort-in-well-formed-program:{}", kind), msg: format!("a program that contains no violation in any state aborted: {}", msg), at: rec.events.len().saturating_sub(2) });
-        if kind == "internal" || kind == "other" {
-          fs.push(Finding { prop: "C19", sig: "internal-error".into(), msg: format!("internal error: {}", msg), at: rec.events.len().saturating_sub(2) });
+      self.rep.count(&format!("aborts_{}", kind));
+      let at = rec.events.len().saturating_sub(2);
+      if kind == "internal" || kind == "other" {
+        fs.push(Finding { prop: "C19", sig: format!("internal-error:{}", internal_sig(msg)), msg: format!("a build failed with an internal error instead of a result or a diagnosis: {}", msg), at });
+      }
+      if kind == "step-bound" {
+        fs.push(Finding { prop: "C07", sig: "unbounded-recursion".into(), msg: "the build exceeded the step bound (unbounded recursion through requires)".into(), at });
+      }
+      if self.opts.wellformed && kind != "injected-panic" && kind != "user-panic" {
+        fs.push(Finding { prop: "C20", sig: format!("abort-in-well-formed-program:{}", kind), msg: format!("a program that contains no violation in any state aborted: {}", msg), at });
+      }
+      if self.opts.injected && matches!(kind, "cycle" | "hidden-dependency" | "overlapping-write") {
+        if let Some(fd) = self.classify_abort(rec, msg, kind) { fs.push(fd); }
+      }
+    }
+    if self.opts.injected && rec.kind == SessKind::TopDown {
+      // Second oracle for C05-C07: if the from-scratch interpreter hits a violation while evaluating root k, pie must
+      // not return a value for root k. And when neither aborts, the values must agree.
+      let p = self.prog.clone();
+      let mut r = RefRun::new(&p, &rec.pre_world);
+      let mut outs = Vec::new();
+      for root in &rec.requested_roots { outs.push(r.eval(*root)); }
+      match &r.viol {
+        Some(crate::refm::RefViol::SelfAccess { .. }) | Some(crate::refm::RefViol::StepBound) => { self.rep.count("sessions_outside_program_class"); }
+        Some(v) => {
+          let k = outs.iter().position(|o| o.is_none()).unwrap_or(0);
+          self.rep.count("ref_violations_in_required_roots");
+          // A reader that goes on to require the writer later in the same execution is legal or not depending on
+          // which of the two ran first (DESIGN section 12): not a member of the injected class, the oracle stays out.
+          let order_dependent = match v {
+            crate::refm::RefViol::HiddenRead { reader, writer, .. } | crate::refm::RefViol::HiddenWrite { reader, writer, .. } => {
+              let mut l = RefRun::new(&p, &rec.pre_world);
+              l.lenient = true;
+              for root in rec.requested_roots.iter().take(k + 1) { l.eval(*root); }
+              l.reaches(*reader, *writer)
+            }
+            _ => false,
+          };
+          if order_dependent {
+            self.rep.count("sessions_with_read_before_require_of_generator");
+          } else if rec.roots.len() > k && match v {
+            crate::refm::RefViol::HiddenRead { res, reader, writer } | crate::refm::RefViol::HiddenWrite { res, reader, writer } =>
+              fs.iter().any(|fd| fd.sig.starts_with("K4-") && fd.k4_key() == Some((*reader, *res, *writer))),
+            _ => false,
+          } {
+            // same finding, seen through the second oracle: the store ends up with this reader/writer pair and no path
+            self.rep.known_hit("K4-legality-path-removed-later(ref-oracle)");
+          } else if rec.roots.len() > k {
+            let prop = match v { crate::refm::RefViol::Cycle { .. } => "C07", crate::refm::RefViol::Overlap { .. } => "C06", crate::refm::RefViol::UserPanic { .. } => "C19", _ => "C05" };
+            fs.push(Finding { prop, sig: "violation-not-diagnosed".into(), at: rec.events.len().saturating_sub(2),
+              msg: format!("executing the required tasks from scratch in this state runs into {:?}, but Session::require(T{}) returned {}", v, rec.roots[k].0, rec.roots[k].1) });
+          } else if let Some(msg) = &rec.aborted {
+            if abort_kind(msg) == match v { crate::refm::RefViol::Cycle { .. } => "cycle", crate::refm::RefViol::Overlap { .. } => "overlapping-write", crate::refm::RefViol::UserPanic { .. } => "user-panic", _ => "hidden-dependency" } { self.rep.count("violations_diagnosed_as_ref_says"); }
+          }
+        }
+        None => {
+          if r.order_sensitive {
+            self.rep.count("sessions_with_read_before_write_in_one_build");
+          } else if rec.aborted.is_none() {
+            let prop = if self.any_abort { "C19" } else { "C01" };
+            for mut fd in monitors::check_vs_ref(&p, rec, &r, &outs) { fd.prop = prop; fd.sig = format!("{}-after-role-flip", fd.sig); fs.push(fd); }
+            self.rep.add("outputs_compared_with_ref", rec.roots.len() as u64);
+          }
         }
       }
     }
@@ -236,6 +299,92 @@ impl<'a> CaseRunner<'a> {
     }
   }
 
+  /// C20: pie aborted with a diagnosis. If a from-scratch build of all known tasks in the current state runs into the
+  /// same kind of violation, fine. Otherwise the abort must be explained by a stale edge (finding K3): the other task
+  /// named in the message was not executed in this session and, evaluated from scratch in the current state, does
+  /// not create the edge. Anything else is a violation.
+  fn classify_abort(&mut self, rec: &SessionRec, msg: &str, kind: &'static str) -> Option<Finding> {
+    let p = self.prog.clone();
+    let at = rec.events.len().saturating_sub(2);
+    let known: Vec<u32> = self.drv.shadow.known.iter().copied().collect();
+    let (res, tasks) = parse_abort(msg);
+    let cur = tasks.first().copied();
+    let other = tasks.get(1).copied();
+    // from-scratch builds of all known tasks (two evaluation orders), first strict, then collecting every kind of
+    // violation the tasks contain in this state (a strict build stops at the first one it meets)
+    let mut orders: Vec<Vec<u32>> = vec![known.clone(), known.iter().rev().copied().collect()];
+    // programs with a live violation are order-sensitive: also try the order pie was asked for, and the two tasks named
+    for first in [rec.requested_roots.clone(), cur.into_iter().collect(), other.into_iter().collect(), other.into_iter().chain(cur.into_iter()).collect()] {
+      if first.is_empty() { continue; }
+      let mut o: Vec<u32> = Vec::new();
+      for t in first.iter().chain(known.iter()) { if !o.contains(t) { o.push(*t); } }
+      orders.push(o);
+    }
+    let mut ref_kinds: BTreeSet<&'static str> = BTreeSet::new();
+    let kind_of = |v: &crate::refm::RefViol| -> &'static str {
+      match v {
+        crate::refm::RefViol::Cycle { .. } => "cycle",
+        crate::refm::RefViol::Overlap { .. } => "overlapping-write",
+        crate::refm::RefViol::HiddenRead { .. } | crate::refm::RefViol::HiddenWrite { .. } => "hidden-dependency",
+        crate::refm::RefViol::SelfAccess { .. } | crate::refm::RefViol::StepBound => "outside-class",
+        crate::refm::RefViol::UserPanic { .. } => "user-panic",
+      }
+    };
+    for order in &orders {
+      for collect in [false, true] {
+        let mut r = RefRun::new(&p, &rec.pre_world);
+        r.collect = collect;
+        for t in order { if r.viol.is_some() { break; } r.eval(*t); }
+        if let Some(v) = &r.viol { ref_kinds.insert(kind_of(v)); }
+        for v in &r.collected { ref_kinds.insert(kind_of(v)); }
+      }
+    }
+    let _ = (cur, other);
+    if ref_kinds.contains("outside-class") { self.rep.count("sessions_outside_program_class"); return None; }
+    if ref_kinds.contains(kind) { self.rep.count("aborts_confirmed_by_from_scratch_build"); return None; }
+    // stale-edge classifier
+    let executed_now: BTreeSet<u32> = rec.events.iter().filter_map(|e| if let Ev::ExecStart { task } = e { Some(*task) } else { None }).collect();
+    let solo = |t: u32| { let mut r = RefRun::new(&p, &rec.pre_world); r.eval(t); r };
+    let pattern: Option<&'static str> = match (kind, cur, other, res) {
+      ("hidden-dependency", Some(c), Some(o), Some(r)) if msg.contains("is read by the current executing task") => {
+        let rr = solo(o);
+        if !executed_now.contains(&o) && rr.writer_of[r as usize] != Some(o) { Some("K3-stale-write-edge-hidden-read") } else { let _ = c; None }
+      }
+      ("hidden-dependency", Some(c), Some(o), Some(r)) => {
+        let rr = solo(o);
+        if !executed_now.contains(&o) && (!rr.readers_of[r as usize].contains(&o) || rr.reaches(o, c)) { Some("K3-stale-read-edge-hidden-write") } else { None }
+      }
+      ("overlapping-write", Some(_c), Some(o), Some(r)) => {
+        let rr = solo(o);
+        if !executed_now.contains(&o) && rr.writer_of[r as usize] != Some(o) { Some("K3-stale-write-edge-overlap") } else { None }
+      }
+      ("cycle", Some(c), Some(b), _) => {
+        // some task on a recorded path b ->* c was not executed in this session (its require edges may be stale)
+        let sh = &self.drv.shadow; // shadow after the aborted session = store content at the abort (minus the unwound tasks)
+        let mut stale_on_path = false;
+        let mut seen = BTreeSet::new();
+        let mut stack = vec![(b, !executed_now.contains(&b))];
+        while let Some((x, stale)) = stack.pop() {
+          if x == c { if stale { stale_on_path = true; break; } continue; }
+          if !seen.insert((x, stale)) { continue; }
+          for d in &sh.tasks[x as usize].decls {
+            if d.is_task_target() { stack.push((d.target, stale || !executed_now.contains(&d.target) && d.target != c)); }
+          }
+        }
+        if stale_on_path { Some("K3-stale-require-edge-cycle") } else { None }
+      }
+      _ => None,
+    };
+    match pattern {
+      Some(sig) => {
+        self.rep.known_hit(sig);
+        if self.known_as_alarm { Some(Finding { prop: "C20", sig: sig.into(), at, msg: format!("spurious abort caused by a dependency recorded in an earlier state: {}", msg) }) } else { None }
+      }
+      None => Some(Finding { prop: "C20", sig: format!("spurious-abort:{}", kind), at,
+        msg: format!("the build aborted ({}) but a from-scratch build of all known tasks {:?} in the current state hits no such violation (it finds: {:?}), and no stale edge of a task not executed in this session explains it", msg, known, ref_kinds) }),
+    }
+  }
+
   fn nontrivial(&mut self, rec: &SessionRec, extra: u64) {
     let (_execs, reexec, reuse, cons, incons) = session_flags(rec);
     let nt = match self.opts.which {
@@ -262,12 +411,14 @@ impl<'a> CaseRunner<'a> {
       match step {
         Step::Set(r, v) => self.drv.set(*r, *v),
         Step::Arm(o, r, on) => self.drv.arm(*o, *r, *on),
+        Step::PanicAt(k) => { crate::cell::FAULTS.with(|f| f.borrow_mut().panic_at = Some(*k)); }
         Step::TopDown(roots) => {
           let rec = self.drv.session(None, roots);
           let fs = self.analyze(&rec, "top-down session", true);
           for fd in &fs { self.raise(fd, &rec, "top-down session"); }
           self.nontrivial(&rec, 0);
-          if rec.aborted.is_some() { if self.opts.wellformed { return Outcome { aborted: true }; } continue; }
+          crate::cell::FAULTS.with(|f| f.borrow_mut().panic_at = None);
+          if let Some(m) = &rec.aborted { if self.opts.wellformed && abort_kind(m) != "injected-panic" { return Outcome { aborted: true }; } continue; }
           let known: BTreeSet<u32> = self.drv.shadow.known.clone();
           if known.iter().all(|k| roots.contains(k)) {
             self.drv.pending.clear();
@@ -384,3 +535,32 @@ pub fn ref_outputs(p: &Program, state: &[Option<u32>], roots: &[u32]) -> (Vec<Op
 }
 
 pub fn shadow_is_all_completed(sh: &Shadow) -> bool { sh.known.iter().all(|t| sh.tasks[*t as usize].status == Status::Completed) }
+
+/// Extracts (resource, [current task, other task]) from one of pie's diagnosis messages.
+pub fn parse_abort(msg: &str) -> (Option<u32>, Vec<u32>) {
+  let mut res = None;
+  let mut tasks = Vec::new();
+  let b = msg.as_bytes();
+  let mut i = 0;
+  while i < b.len() {
+    if (b[i] == b'R' || b[i] == b'T') && i + 1 < b.len() && b[i + 1].is_ascii_digit() && (i == 0 || !b[i - 1].is_ascii_alphanumeric()) {
+      let mut j = i + 1;
+      let mut n = 0u32;
+      while j < b.len() && b[j].is_ascii_digit() { n = n * 10 + (b[j] - b'0') as u32; j += 1; }
+      if b[i] == b'R' { if res.is_none() { res = Some(n); } } else { tasks.push(n); }
+      i = j;
+    } else { i += 1; }
+    if msg[i.min(msg.len())..].starts_with(" @ ") { break; }
+  }
+  // messages name the current executing task first, except "Hidden dependency ... read by" which also does.
+  (res, tasks)
+}
+
+/// Stable part of an internal error message (text before any quoted key / location).
+pub fn internal_sig(msg: &str) -> String {
+  let head = msg.split(" @ ").next().unwrap_or(msg);
+  let loc = msg.split(" @ ").nth(1).unwrap_or("");
+  let file = loc.rsplit('/').next().unwrap_or("").split(':').next().unwrap_or("");
+  let words: Vec<&str> = head.split_whitespace().take(8).collect();
+  format!("{}@{}", words.join("-").chars().filter(|c| c.is_ascii_alphanumeric() || *c == '-' || *c == ':').collect::<String>(), file)
+}
